@@ -357,11 +357,16 @@ func (c *cluster) newEntry(idx uint64, cp bool) *raft.Log {
 	n := []int{0, 1, 8, 30, 200}[c.tp.Choose(5)]
 	l.Data = make([]byte, n)
 	fill8(l.Data, c.nextData)
-	switch c.tp.Choose(6) {
+	switch c.tp.Choose(8) {
 	case 0:
 		l.Type = raft.LogNoop
 	case 1:
 		l.Extensions = []byte(fmt.Sprintf("ext%d", c.nextData))
+	case 2:
+		// membership changes happen at any index, not only at bootstrap
+		l.Type = raft.LogConfiguration
+	case 3:
+		l.Type = []raft.LogType{raft.LogBarrier, raft.LogAddPeerDeprecated, raft.LogRemovePeerDeprecated, raft.LogType(255)}[c.tp.Choose(4)]
 	}
 	return l
 }
@@ -384,9 +389,13 @@ func (c *cluster) waitQuiet(n *cnode) {
 	if c.mode == "C18" {
 		n.gateOpen = true
 	}
+	drained := c.sim.VerifierDrained(fmt.Sprintf("n%d.%d", n.id, n.gen))
 	c.sim.WaitUntil("wait-verifier-quiet", func() bool {
 		d := int(n.mc.Summary().Counters["dropped_reports"])
-		return n.delivered+d >= n.triggered
+		// either every stored checkpoint is accounted for, or the verifier has
+		// nothing left to do (then the accounting oracle at the end decides
+		// whether a checkpoint was neither reported nor counted as dropped)
+		return n.delivered+d >= n.triggered || drained()
 	})
 }
 
